@@ -246,8 +246,7 @@ def handle (st : DState) (req : Sexp) : Except String (DState × Sexp) :=
       .ok (st, sexpOfBool (Render.rootClash imps))
   | .list [.atom "tdNames", hint, t] => do
       let ns := Render.tdNames (← strOf hint) (← tyOf t)
-      .ok (st, .list [.list (ns.map (fun n => .str n)), sexpOfBool (Render.hasNameCollision ns),
-                      sexpOfBool (Render.tdFieldNeedsName st.names (← tyOf t))])
+      .ok (st, .list [.list (ns.map (fun n => .str n)), sexpOfBool (Render.hasNameCollision ns)])
   | .list [.atom "movable", .list stub, .list src, .list stars] => do
       let itemOf (x : Sexp) : Except String Imports.Item := match x with
         | .list [m, o, a] => do
